@@ -968,3 +968,146 @@ Proof.
   - destruct tsOk; destruct (sackPermitted && negb (Nat.eqb (length blocks) 0)); cbn [app]; legal_items.
   - rewrite Hk. split; [lia|Z.div_mod_to_equations; lia].
 Qed.
+
+(* ====================================================================== UDP *)
+Definition udp_hdr (sp dp len ck : Z) : list Z :=
+  [w8 (sp / 2^8); w8 sp; w8 (dp / 2^8); w8 dp; w8 (len / 2^8); w8 len; ck / 256; ck mod 256].
+
+Lemma data_lens data : vsize data <= 131072 -> Forall (fun b : list Z => Z.of_nat (length b) <= 131072) data.
+Proof.
+  unfold vsize. induction data as [|v vs IH]; intros H; constructor; cbn [concat] in H; rewrite app_length in H.
+  - lia.
+  - apply IH. lia.
+Qed.
+
+Lemma send_udp_flat r data sp dp :
+  rOffload r = false ->
+  bytes_ok (rLocal r) -> bytes_ok (rRemote r) ->
+  (length (rLocal r) <= 16)%nat -> (length (rRemote r) <= 16)%nat ->
+  Forall bytes_ok data -> nonfinal_even data ->
+  8 + vsize data <= 65535 ->
+  let L := 8 + vsize data in
+  let ck := xsum_of (rLocal r) (rRemote r) 17 L (udp_hdr sp dp L 0 ++ concat data) in
+  send_udp r data sp dp = Some (udp_hdr sp dp L ck) /\ is_u16 ck.
+Proof.
+  intros Hoff Bs Bd Ls Ld Bdata Hev Hsz L ck.
+  assert (Hvs : 0 <= vsize data) by (unfold vsize; lia).
+  unfold send_udp.
+  assert (EL : w16 (8 + vsize data) = L) by (subst L; unfold w16; change (2^16) with 65536; rewrite Z.mod_small; lia).
+  rewrite EL, udp_encode_flat. cbn [obind]. rewrite Hoff.
+  unfold udp_calculateChecksum, getN. cbn [length Nat.add Nat.leb skipn firstn obind]. cbv zeta.
+  set (H0 := [w8 (sp / 2 ^ 8); w8 sp; w8 (dp / 2 ^ 8); w8 dp; w8 (L / 2 ^ 8); w8 L; 0; 0]).
+  assert (BH : bytes_ok H0) by (subst H0; bytes_tac).
+  assert (BL : bytes_ok [w8 (L / 2 ^ 8); w8 L]) by bytes_tac.
+  rewrite chain_ws; try assumption; try (cbn [length]; lia); try lia; try (apply data_lens; lia); try (subst H0; cbn [length]; lia).
+  rewrite sum_ws_concat by exact Hev.
+  assert (E17 : ws [0; w8 17] = 17) by reflexivity. rewrite E17.
+  rewrite ws2, be16_rt by (subst L; lia).
+  assert (EH : ws (udp_hdr sp dp L 0 ++ concat data) = ws H0 + ws (concat data)).
+  { rewrite ws_app_even by reflexivity. reflexivity. }
+  assert (Eck : lnot16 (oc_norm (ws (rLocal r) + ws (rRemote r) + 17 + ws (concat data) + L + ws H0)) = ck).
+  { subst ck. unfold xsum_of. rewrite EH. f_equal. f_equal. lia. }
+  rewrite Eck.
+  assert (Hu : is_u16 ck).
+  { subst ck. unfold xsum_of.
+    match goal with |- is_u16 (lnot16 (oc_norm ?t)) => assert (HT : 0 <= t) end.
+    { pose proof (ws_nonneg _ Bs). pose proof (ws_nonneg _ Bd). rewrite EH.
+      pose proof (ws_nonneg _ BH). pose proof (ws_nonneg (concat data) (Forall_concat _ _ Bdata)). subst L. lia. }
+    pose proof (oc_norm_u16 _ HT) as Hn. unfold lnot16, is_u16 in *. lia. }
+  split; [|exact Hu].
+  unfold udp_setChecksum, put16. subst H0. cbn [upd obind].
+  assert (Ehl : w8 (ck / 2 ^ 8) = ck / 256 /\ w8 ck = ck mod 256).
+  { unfold w8, is_u16 in *. change (2^8) with 256. split; Z.div_mod_to_equations; lia. }
+  destruct Ehl as [-> ->]. reflexivity.
+Qed.
+
+Lemma wf_udp_dgram pseudo sp dp ck payload :
+  0 <= sp < 65536 -> 0 <= dp < 65536 -> is_u16 ck -> ck <> 0 ->
+  let L := 8 + Rfc.zlen payload in
+  L < 65536 ->
+  let d := udp_hdr sp dp L ck ++ payload in
+  Rfc.sums_to_ffff (pseudo (Rfc.zlen d) ++ d) = true ->
+  Rfc.wf_udp false pseudo d = true /\ Rfc.view_udp d = Rfc.mkUV sp dp L payload.
+Proof.
+  intros Hsp Hdp Hck Hnz L HL d Hsum.
+  pose proof (zlen_nonneg payload) as Hp.
+  assert (Ez : Rfc.zlen d = L) by (subst d L; unfold Rfc.zlen; rewrite app_length; cbn [udp_hdr length]; lia).
+  assert (B : forall i, (i < 8)%nat -> Rfc.b8 d i = nth i (udp_hdr sp dp L ck) 0) by (intros i Hi; apply b8_prefix; cbn [udp_hdr length]; lia).
+  assert (E4 : Rfc.b16 d 4 = L) by (unfold Rfc.b16; rewrite !B by lia; cbn [udp_hdr nth]; apply be16_rt; lia).
+  assert (E6 : Rfc.b16 d 6 = ck).
+  { unfold Rfc.b16. rewrite !B by lia. cbn [udp_hdr nth]. unfold is_u16 in Hck. Z.div_mod_to_equations. lia. }
+  split.
+  - unfold Rfc.wf_udp. rewrite Hsum, E4, E6, Ez. rewrite Z.eqb_refl.
+    destruct (Z.leb_spec 8 L); [|lia]. destruct (Z.eqb_spec ck 0); [contradiction|]. reflexivity.
+  - unfold Rfc.view_udp. rewrite E4. unfold Rfc.b16. rewrite !B by lia. cbn [udp_hdr nth].
+    rewrite (be16_rt sp), (be16_rt dp) by assumption. reflexivity.
+Qed.
+
+Lemma udp_hdr_split sp dp L ck payload :
+  udp_hdr sp dp L ck ++ payload =
+  [w8 (sp / 2^8); w8 sp; w8 (dp / 2^8); w8 dp; w8 (L / 2^8); w8 L] ++ (ck / 256) :: (ck mod 256) :: payload.
+Proof. reflexivity. Qed.
+
+(* UDP over IPv4, under the hypothesis that the computed checksum is not zero (see
+   udp_zero_checksum_refuted below) *)
+Theorem udp_frame_wf4_partial r data sp dp ttl c :
+  let L := 8 + vsize data in
+  rOffload r = false ->
+  length (rLocal r) = 4%nat -> length (rRemote r) = 4%nat -> bytes_ok (rLocal r) -> bytes_ok (rRemote r) ->
+  Rfc.src4_ok (rLocal r) = true ->
+  0 <= sp < 65536 -> 0 <= dp < 65536 ->
+  Forall bytes_ok data -> nonfinal_even data -> vsize data <= 65507 -> 1 <= ttl < 256 ->
+  xsum_of (rLocal r) (rRemote r) 17 L (udp_hdr sp dp L 0 ++ concat data) <> 0 ->
+  exists hdr frame,
+    send_udp r data sp dp = Some hdr /\
+    ipv4_write r hdr data 17 ttl c = Some (frame, bucket_after (20 + L) c) /\
+    Rfc.wf_ipv4 false frame = true /\
+    Rfc.view_ip4 frame = Rfc.mkIV (rLocal r) (rRemote r) 17 ttl (id_of (20 + L) c) (hdr ++ concat data) /\
+    Rfc.view_udp (hdr ++ concat data) = Rfc.mkUV sp dp L (concat data).
+Proof.
+  intros L Hoff Ls Ld Bs Bd Hsrc Hsp Hdp Bdata Hev Hsz Httl Hnz.
+  assert (Hvs : 0 <= vsize data) by (unfold vsize; lia).
+  destruct (send_udp_flat r data sp dp Hoff Bs Bd ltac:(lia) ltac:(lia) Bdata Hev ltac:(lia)) as [Hsend Hu].
+  fold L in Hsend, Hu.
+  set (ck := xsum_of (rLocal r) (rRemote r) 17 L (udp_hdr sp dp L 0 ++ concat data)) in *.
+  set (hdr := udp_hdr sp dp L ck) in *.
+  assert (ELen : w16 (20 + Z.of_nat (length hdr) + vsize data) = 20 + L).
+  { subst hdr. cbn [udp_hdr length]. unfold w16. change (2^16) with 65536. rewrite Z.mod_small; subst L; lia. }
+  destruct (ipv4_write_flat r hdr data 17 ttl c Ls Ld Bs Bd) as (ckip & Hw & Huip & Hsumip).
+  rewrite ELen in Hw, Hsumip. change (w8 17) with 17 in Hw, Hsumip.
+  exists hdr, (ip4_hdr (20 + L) (w16 (fst (ipv4_next_id (20 + L) c))) ttl 17 ckip (rLocal r) (rRemote r) ++ hdr ++ concat data).
+  split; [exact Hsend|]. split; [exact Hw|].
+  assert (Ezl : Rfc.zlen (hdr ++ concat data) = L).
+  { unfold Rfc.zlen. rewrite app_length. subst hdr L. cbn [udp_hdr length]. unfold vsize. lia. }
+  assert (Bdc : bytes_ok (concat data)) by (apply Forall_concat, Bdata).
+  assert (Hudp : Rfc.wf_udp false (Rfc.pseudo4 (rLocal r) (rRemote r) 17) (hdr ++ concat data) = true /\
+                 Rfc.view_udp (hdr ++ concat data) = Rfc.mkUV sp dp L (concat data)).
+  { subst hdr.
+    apply (wf_udp_dgram (Rfc.pseudo4 (rLocal r) (rRemote r) 17) sp dp ck (concat data)); try assumption.
+    - change (8 + Rfc.zlen (concat data)) with L. subst L. lia.
+    - change (8 + Rfc.zlen (concat data)) with L. rewrite Ezl. rewrite udp_hdr_split. subst ck. rewrite udp_hdr_split.
+      change (0 / 256) with 0. change (0 mod 256) with 0.
+      apply xsum_verifies4; try assumption; try lia; try (subst L; lia); try reflexivity; bytes_tac. }
+  destruct Hudp as [Hwf_udp Hview].
+  destruct (wf_ipv4_hdr false (20 + L) (w16 (fst (ipv4_next_id (20 + L) c))) ttl 17 ckip (rLocal r) (rRemote r)
+              (hdr ++ concat data) Ls Ld Hsrc ltac:(rewrite Ezl; reflexivity) ltac:(subst L; lia)
+              (w16_range _) Httl ltac:(lia) Huip Hsumip) as [W V].
+  { unfold transport4_ok. exact Hwf_udp. }
+  split; [exact W|]. split; [exact V|exact Hview].
+Qed.
+
+(* the full statement is false: when the computed checksum is 0 the code transmits 0, which
+   RFC 768 reserves for "no checksum" (witness found by the harness: 10.0.0.1:4568 ->
+   10.0.0.2:5535, payload c4 60) *)
+Theorem udp_zero_checksum_refuted :
+  exists r data sp dp ttl c hdr frame c',
+    rOffload r = false /\ length (rLocal r) = 4%nat /\ Forall bytes_ok data /\ vsize data <= 65507 /\
+    send_udp r data sp dp = Some hdr /\ ipv4_write r hdr data 17 ttl c = Some (frame, c') /\
+    Rfc.wf_ipv4 false frame = false /\ Rfc.b16 hdr 6 = 0.
+Proof.
+  exists (mkRoute [10;0;0;1] [10;0;0;2] [] [] false), [[196; 96]], 4568, 5535, 255, 0.
+  eexists. eexists. eexists.
+  split; [reflexivity|]. split; [reflexivity|]. split; [repeat constructor; unfold is_byte; lia|].
+  split; [vm_compute; discriminate|].
+  split; [vm_compute; reflexivity|]. split; [vm_compute; reflexivity|]. split; vm_compute; reflexivity.
+Qed.
